@@ -33,6 +33,15 @@ STAT_DECLARE(int, upolynomial, gcd_subresultant)
 STAT_DECLARE(int, upolynomial, gcd_heuristic)
 STAT_DECLARE(int, upolynomial, gcd_heuristic_success)
 
+#ifdef LIBPOLY_VERIF
+/**
+ * Verification-only switch (never set by the library itself; 0 = normal behavior):
+ *  bit 0: upolynomial_gcd_heuristic gives up immediately, so lp_upolynomial_gcd over Z falls back to the subresultant gcd,
+ *  bit 1: coefficient_gcd_pp_univariate (the univariate specialization shortcut) reports "not precise".
+ */
+int lp_verif_gcd_mode = 0;
+#endif
+
 /**
  * Computing using Euclid's algorithm.
  *
@@ -467,6 +476,12 @@ int bound_valuation(const lp_upolynomial_t* A, const lp_upolynomial_t* B, const 
 }
 
 lp_upolynomial_t* upolynomial_gcd_heuristic(const lp_upolynomial_t* A, const lp_upolynomial_t* B, int attempts) {
+
+#ifdef LIBPOLY_VERIF
+  if (lp_verif_gcd_mode & 1) {
+    return 0;
+  }
+#endif
 
   // Let's keep the smaller one in B
   if (lp_upolynomial_degree(A) < lp_upolynomial_degree(B)) {
